@@ -175,8 +175,8 @@ WFetch(i) ==                 \* utils.ReadRequest -> proxy.handleAgentGetRequest
        ELSE /\ w' = [w EXCEPT ![i] = "failed"] /\ UNCHANGED wreq
   /\ UNCHANGED <<pc, idOf, pending, ps, batch, agent, cur, seen, wresp, plook, inflight, delivered, calls, handed, faults, hit>>
 
-WFetchFault(i) ==            \* fetch rejected or garbled for this request
-  /\ w[i] = "fetch" /\ faults < MaxFaults
+WFetchFault(i) ==            \* fetch rejected, or its reply lost / garbled on the way back
+  /\ w[i] \in {"fetch", "forward"} /\ faults < MaxFaults
   /\ pending[i] \in Victims
   /\ faults' = faults + 1
   /\ hit' = hit \cup {pending[i]}
@@ -189,14 +189,16 @@ WForward(i) ==               \* hostProxy.ServeHTTP reaches the backend
   /\ w' = [w EXCEPT ![i] = "backend"]
   /\ UNCHANGED <<pc, idOf, pending, ps, batch, agent, cur, seen, wreq, wresp, plook, inflight, delivered, handed, faults, hit>>
 
-BackendDown(i) ==            \* connect failure: ReverseProxy synthesises 502
-  /\ w[i] = "forward" /\ faults < MaxFaults
-  /\ wreq[i] \in Victims
+LocalAnswer(i, kind) ==      \* the agent's handler chain answers without a backend response:
+  /\ w[i] = "forward" /\ faults < MaxFaults    \* ReverseProxy's 502 on a connect failure, a 4xx/5xx of the
+  /\ wreq[i] \in Victims                        \* websocket shim on malformed input
   /\ faults' = faults + 1
   /\ hit' = hit \cup {wreq[i]}
-  /\ wresp' = [wresp EXCEPT ![i] = <<"502", wreq[i]>>]
+  /\ wresp' = [wresp EXCEPT ![i] = <<kind, wreq[i]>>]
   /\ w' = [w EXCEPT ![i] = "upload"]
   /\ UNCHANGED <<pc, idOf, pending, ps, batch, agent, cur, seen, wreq, plook, inflight, delivered, calls, handed>>
+
+BackendDown(i) == LocalAnswer(i, "502")   \* connect failure: ReverseProxy synthesises 502
 
 BackendReply(i) ==
   /\ w[i] = "backend"
